@@ -476,10 +476,91 @@ def _window_filter_by_interpretation(ctx, g):
     return (True, n, None)
 
 
+def _dove_window_by_interpretation(ctx, f):
+    """get_consensus_dictionaries run by the abstract interpreter on model mate pairs (both inward orientations x two sets of trims x plain / dove-safe): the window handed to
+    read_to_consensus_dict for BOTH mates is [left mate start + its trim, right mate end - its trim - 1], (None, None) in plain mode; same-orientation pairs and a missing
+    mate are refused in dove-safe mode.  {orientation text: (ok, detail, witness)} or None outside the interpreted subset."""
+    from ..consteval import run_function, Raised, Unfoldable, module_scope, Instance
+    out = {}
+    try:
+        env = dict(module_scope(ctx.ix, SEQUTILS))
+        for r1rev, text in ((True, 'R1.is_reverse and not R2.is_reverse'), (False, 'not R1.is_reverse and R2.is_reverse')):
+            bad = None
+            n = 0
+            for (d1, d2), safe in itertools.product(((0, 0), (3, 5)), (True, False)):
+                n += 1
+                if r1rev:
+                    R1 = Instance(attrs={'is_reverse': True, 'reference_start': 140, 'reference_end': 200, 'is_read1': True, 'is_read2': False})
+                    R2 = Instance(attrs={'is_reverse': False, 'reference_start': 100, 'reference_end': 160, 'is_read1': False, 'is_read2': True})
+                    want = (100 + d2, 200 - d1 - 1)
+                else:
+                    R1 = Instance(attrs={'is_reverse': False, 'reference_start': 100, 'reference_end': 160, 'is_read1': True, 'is_read2': False})
+                    R2 = Instance(attrs={'is_reverse': True, 'reference_start': 140, 'reference_end': 200, 'is_read1': False, 'is_read2': True})
+                    want = (100 + d1, 200 - d2 - 1)
+                if not safe:
+                    want = (None, None)
+                seen = []
+
+                def hook(ev, call, env_, seen=seen):
+                    if last_name(dotted(call.func) or '') == 'read_to_consensus_dict':
+                        a = []
+                        for x in call.args:
+                            if isinstance(x, ast.Starred):
+                                a.extend(list(ev.ev(x.value, env_)))
+                            else:
+                                a.append(ev.ev(x, env_))
+                        kw = {}
+                        for k_ in call.keywords:
+                            if k_.arg is None:
+                                kw.update(ev.ev(k_.value, env_))
+                            else:
+                                kw[k_.arg] = ev.ev(k_.value, env_)
+                        names = ['read', 'start', 'end']
+                        rec = dict(zip(names, a))
+                        rec.update(kw)
+                        seen.append((rec.get('read'), rec.get('start'), rec.get('end')))
+                        return {}
+                    return NotImplemented
+                run_function(f, [R1, R2], {'dove_safe': safe, 'dove_R1_distance': d1, 'dove_R2_distance': d2}, env=env, call_hook=hook, budget=20000)
+                wins = [(s_, e_) for _, s_, e_ in seen]
+                if len(seen) != 2 or {id(r_) for r_, _, _ in seen} != {id(R1), id(R2)} or any(w_ != want for w_ in wins):
+                    bad = {'R1': 'reverse 140-200' if r1rev else 'forward 100-160', 'R2': 'forward 100-160' if r1rev else 'reverse 140-200', 'dove_safe': safe, 'dove_R1_distance': d1, 'dove_R2_distance': d2,
+                           'windows handed to the per-read extraction': wins, 'expected for both mates': want}
+                    break
+            out[text] = (bad is None, n, bad)
+        # refusals of the dove-safe mode
+        same = Instance(attrs={'is_reverse': False, 'reference_start': 100, 'reference_end': 160, 'is_read1': True, 'is_read2': False})
+        other = Instance(attrs={'is_reverse': False, 'reference_start': 140, 'reference_end': 200, 'is_read1': False, 'is_read2': True})
+        for args, what in (([same, other], 'same orientation'), ([same, None], 'missing mate')):
+            try:
+                run_function(f, args, {'dove_safe': True}, env=env, call_hook=lambda ev, call, env_: ({} if last_name(dotted(call.func) or '') == 'read_to_consensus_dict' else NotImplemented), budget=20000)
+                out['refusal:' + what] = (False, 1, {'pair': what, 'dove_safe': True, 'outcome': 'accepted'})
+            except Raised as r_:
+                out['refusal:' + what] = (r_.name == 'ValueError', 1, None if r_.name == 'ValueError' else {'pair': what, 'raised': r_.name})
+    except (Unfoldable, Raised):
+        return None
+    except Exception:
+        return None
+    return out
+
+
+
 @rule('C14', 'C14-R5', 'only bases inside the mate-overlap-safe span are called: the dove-safe window is [left mate start + d, right mate end - d - 1] '
                        '(inclusive) in both orientations, symmetric under swapping the mates, and the per-read filter is start <= pos <= end')
 def r5(ctx):
     f = ctx.fn(SEQUTILS, 'get_consensus_dictionaries')
+    dw = _dove_window_by_interpretation(ctx, f)
+    if dw is not None:
+        for text, (ok_, n_, wit_) in dw.items():
+            ctx.counters['interpreted_cases'] = ctx.counters.get('interpreted_cases', 0) + n_
+            if text.startswith('refusal:'):
+                ctx.emit('C14-R5', ok_, SEQUTILS, f, f'dove-safe mode refuses a pair with {text[8:]} (ValueError)' if ok_ else f'dove-safe mode: {wit_}', key=f'dove-window:{text}', witness=wit_, nontrivial=False)
+            else:
+                ctx.emit('C14-R5', ok_, SEQUTILS, f, f'orientation `{text}`: both mates are extracted with [left start + trim, right end - trim - 1] ({n_} interpreted settings; (None, None) in plain mode)' if ok_ else
+                         f'orientation `{text}`: {wit_}', key=f'dove-window:{text}', witness=wit_,
+                         what='get_consensus_dictionaries: dove-safe window end is not reference_end - distance - 1 in one orientation')
+        _r5_rest(ctx)
+        return
     # the window handed to the per-read extraction: 2nd and 3rd argument of the read_to_consensus_dict calls
     from ..util import arg as _arg
     rcalls = [c for c in walk_no_nested(f) if isinstance(c, ast.Call) and last_name(dotted(c.func) or '') == 'read_to_consensus_dict' and _arg(c, 1, 'start') is not None and _arg(c, 2, 'end') is not None]
@@ -534,6 +615,10 @@ def r5(ctx):
         ctx.emit('C14-R5', ok, SEQUTILS, rcalls[0], f'orientation `{kk}`: safe window {sorted(got, key=str)} on {len(paths)} path(s)' +
                  ('' if ok else f' (expected [{ws}, {we}] inclusive: the last base of the right mate is reference_end - 1)'), key=f'dove-window:{kk}',
                  what='get_consensus_dictionaries: dove-safe window end is not reference_end - distance - 1 in one orientation')
+    _r5_rest(ctx)
+
+
+def _r5_rest(ctx):
     g = ctx.fn(SEQUTILS, 'read_to_consensus_dict')
     sem = _window_filter_by_interpretation(ctx, g)
     em = dict_emission(g) if sem is None else None
